@@ -498,6 +498,23 @@ pub fn run(ctx: &Ctx) -> i32 {
     }
     let (done, complete) = interaction_layer(ctx, &col);
     col.layer("interaction: JOIN x WHERE x projection x DISTINCT x LIMIT (generic reference executor)", done, complete, json!({"statements": 500, "joined_files": 4}));
+    // join statements through every driver
+    {
+        let ma = main_alpha("TEXT");
+        let ja = joined_alpha("TEXT");
+        let joined: String = ja.iter().map(|l| format!("{}\n", l.0)).collect();
+        let tmp = sut::TempFiles::new(&[joined.as_bytes()]);
+        let input: Vec<String> = [0usize, 1, 2, 3, 4, 1].iter().map(|i| ma[*i].0.clone()).collect();
+        let mut cases: Vec<(String, String, Vec<String>, bool)> = Vec::new();
+        for si in 0..NSTMT {
+            for outer in [false, true] {
+                for flipped in [false, true] {
+                    cases.push((defs("TEXT"), stmt_text(si, outer, flipped, &tmp.paths[0]), input.clone(), !flipped));
+                }
+            }
+        }
+        crate::drivers::run_layer(&col, &cases, &|s| if s.contains("GROUP BY") || s.contains("COUNT(") { "join+aggregate".to_string() } else { "join".to_string() });
+    }
     let n = line_ending_layer(&col);
     col.layer("line endings of the joined / main file", n, true, json!({"renderings": ["LF/LF", "CRLF/LF", "LF/CRLF", "CRLF/CRLF", "no final terminator", "CRLF + joined final terminator only"]}));
     {
